@@ -336,6 +336,82 @@ fn struct_docs() -> Vec<RV> {
   out
 }
 
+/// rule graphs with cycles (every pair of 27 rule bodies over the names a, b in the three reference patterns, 1 and 2 rules):
+/// the recursion guards have their own reports ("recursive rule reference ..."), built from the validator's bookkeeping
+fn cycle_family(run: &mut Run, tier: Tier) {
+  let tbodies = [
+    "@", "@ .size 3", "@ .eq 1", "[@]", "[* @]", "{a: @}", "{* tstr => @}", "@ / int", "int / @", "~@", "#6.1(@)", "@ .and @", "(@)", "[? @, @]", "{? a: @, b: @}",
+  ];
+  let gbodies = ["(@)", "(? int, @)", "(a: @)", "(* @)", "(@ // int)"];
+  let nb = tbodies.len() + gbodies.len();
+  let body = |k: usize, target: &str| -> String { if k < tbodies.len() { tbodies[k].replace('@', target) } else { gbodies[k - tbodies.len()].replace('@', target) } };
+  let mut schemas: Vec<String> = vec![];
+  for k1 in 0..nb {
+    schemas.push(format!("a = {}\n", body(k1, "a")));
+    for k2 in 0..nb {
+      for (x, y) in [("b", "a"), ("b", "b"), ("a", "b")] {
+        schemas.push(format!("a = {}\nb = {}\n", body(k1, x), body(k2, y)));
+      }
+      if tier == Tier::Thorough {
+        for k3 in [0usize, 3, 5, 15, 17] {
+          schemas.push(format!("r = {{m: a}}\na = {}\nb = {}\nc = {}\n", body(k1, "b"), body(k2, "c"), body(k3, "a")));
+        }
+      }
+    }
+  }
+  // under a map member too (the location of the report is then not the root)
+  let n0 = schemas.len();
+  for i in (0..n0).step_by(tier.pick(7, 1)) {
+    let s = schemas[i].clone();
+    schemas.push(format!("r = {{m: a, ? n: a}}\n{s}"));
+  }
+  let docs = ["1", "\"x\"", "[]", "[1]", "[[1]]", "{}", "{\"a\":1}", "{\"a\":{\"a\":1}}", "{\"m\":1}", "{\"m\":[1],\"n\":{\"a\":1}}", "null"];
+  let sdocs: Vec<serde_json::Value> = docs.iter().map(|d| serde_json::from_str(d).unwrap()).collect();
+  let accs = par_sweep(schemas.len(), 16, Acc::default, |i, a: &mut Acc| {
+    let text = &schemas[i];
+    let Ok(Ok(ast)) = catch(|| cddl::cddl_from_str(text, false)) else { return };
+    for (d, sd) in docs.iter().zip(sdocs.iter()) {
+      a.states += 1;
+      // the same call three times on fresh validators: verdict and ordered (location, reason) list must not move
+      let r1 = jrep(&ast, sd);
+      let r2 = jrep(&ast, sd);
+      let r3 = jrep_str(text, d);
+      a.calls += 3;
+      let bad = |x: &Rep, y: &Rep| x != y;
+      if bad(&r1, &r2) || bad(&r1, &r3) {
+        a.v.push(Viol {
+          kind: "json-repeat".into(),
+          case: json!({"schema": text, "json": d, "family": "cycles"}),
+          observed: format!("{} then {} then (string entry point) {}", r1.short(), r2.short(), r3.short()),
+          expected: "the same verdict and the same ordered list of (location, reason) pairs".into(),
+          finding: None,
+        });
+      }
+      if let Rep::Val(l) = &r1 {
+        if l.is_empty() {
+          a.v.push(Viol { kind: "json-empty-list".into(), case: json!({"schema": text, "json": d}), observed: "Err(Validation([]))".into(), expected: "a non-empty list".into(), finding: None });
+        }
+        for (loc, reason) in l {
+          if !resolves(sd, loc) {
+            a.v.push(Viol { kind: "json-location".into(), case: json!({"schema": text, "json": d}), observed: format!("location {loc:?} (reason {reason:?}) does not resolve in the document"), expected: "\"\" or a path to an existing node".into(), finding: None });
+          }
+        }
+      }
+      if let Rep::Panic(p) = &r1 {
+        a.v.push(Viol { kind: "panic".into(), case: json!({"schema": text, "json": d}), observed: p.clone(), expected: "Ok or Err".into(), finding: None });
+      }
+    }
+  });
+  let mut n = 0;
+  for a in accs {
+    run.absorb(a.v);
+    run.states += a.states;
+    run.transitions += a.calls;
+    n += a.states;
+  }
+  run.set("cycle_family", json!({"schemas": schemas.len(), "documents": docs.len(), "states": n}));
+}
+
 fn slash_family() -> (Vec<Ty>, Vec<RV>) {
   let kv = |occ: Occ, k: &str, t: Ty| Entry { occ, kind: EK::Val(Some(Key::Arrow(t1(text(k)), false)), t) };
   let inner_map = |k: &str, t: T2| T2::Map(Grp(vec![vec![Entry { occ: Occ::One, kind: EK::Val(Some(Key::Arrow(t1(text(k)), false)), ty1(t)) }]]));
@@ -676,6 +752,7 @@ pub fn run(tier: Tier) -> i32 {
     sweep(&mut run, &st, &lib, &sd, &ssd);
     run.set("slash_key_family", json!({"schemas": st.len(), "documents": sd.len()}));
   }
+  cycle_family(&mut run, tier);
   histories(&mut run, tier);
   quiet_stderr(|| kinds(&mut run)); // the string entry points print parser diagnostics to stderr
   run.evaluations = run.transitions;
@@ -684,7 +761,7 @@ pub fn run(tier: Tier) -> i32 {
      the real JSONValidator and CBORValidator reports (verdict + ordered (location, reason) list) are taken; transitions = the calls of the \
      histories explored from it: immediate repetition, the same call after every other document of the universe was validated (reverse sweep), \
      the string entry point for one document per schema. Oracle: Validation lists are non-empty, every JSON location is \"\" or resolves \
-     in the document (keys are matched raw, so a key may contain '/'; a slash-key family has keys \"a/b\", \"x/y/z\", \"/\"), all reports of a state are identical. Plus a fixed table of malformed schemas / malformed JSON / \
+     in the document (keys are matched raw, so a key may contain '/'; a slash-key family has keys \"a/b\", \"x/y/z\", \"/\"; a cycle family = 1-2 rule graphs over 20 rule bodies in every reference pattern, also under a map member, each call made three times), all reports of a state are identical. Plus a fixed table of malformed schemas / malformed JSON / \
      truncated CBOR / non-conforming documents whose error kinds must be CDDLParsing / JSONParsing / CBORParsing / Validation. \
      Struct family: every map of 1-3 members (and two-alternative maps, and arrays of two-member maps) over a 13-member alphabet (int/any/tstr, \
      nested map and array values, choice values, tables, group reference) x the 343 objects over keys a,b,c with 6 nested/scalar values, judged the same way. \
